@@ -23,7 +23,7 @@ const (
 	// generous wall-clock guards; their firing is never a verdict
 	feedWatchdog  = 30 * time.Second
 	caseWatchdog  = 100 * time.Second
-	readStallTime = 6 * time.Second
+	readStallTime = 3 * time.Second
 )
 
 var errHarness = errors.New("harness")
@@ -48,11 +48,12 @@ func initEnv() (string, error) {
 	return os.MkdirTemp(base, "c16-builder-")
 }
 
-func newChannel(backend, dir, inputID string, logSize int64) syncer.Channel {
+// maxSize 0 = no collection
+func newChannel(backend, dir, inputID string, logSize, maxSize int64) syncer.Channel {
 	if backend == backendMem {
-		return syncer.NewMemoryChannel(syncer.MemoryConf{InputId: inputID, MaxSize: 0, LogSize: logSize})
+		return syncer.NewMemoryChannel(syncer.MemoryConf{InputId: inputID, MaxSize: maxSize, LogSize: logSize})
 	}
-	return syncer.NewStoreChannel(syncer.StorerConf{InputId: inputID, Dir: dir, MaxSize: 0, LogSize: logSize})
+	return syncer.NewStoreChannel(syncer.StorerConf{InputId: inputID, Dir: dir, MaxSize: maxSize, LogSize: logSize})
 }
 
 // stubInput is the part of an Input a ReplicaLeader consults: an id and the source's run ids.
@@ -105,12 +106,21 @@ type feeder struct {
 	pw    *io.PipeWriter
 	aw    syncer.AofChannelWriter
 	right int64
+	upper int64 // every byte handed to the writers so far ends below this offset
 }
 
 func (f *feeder) curID() string {
 	f.mu.Lock()
 	defer f.mu.Unlock()
 	return f.id
+}
+
+// fedUpTo returns the current id and an upper bound of the offsets fed under it (bytes may still
+// be in flight to the channel).
+func (f *feeder) fedUpTo() (string, int64) {
+	f.mu.Lock()
+	defer f.mu.Unlock()
+	return f.id, f.upper
 }
 
 func (f *feeder) curRight() int64 {
@@ -173,7 +183,7 @@ func (f *feeder) fullSync(id string, left, size int64, pace func(done int64)) er
 	pr, pw := io.Pipe()
 	br := bufio.NewReaderSize(pr, 64*1024)
 	f.mu.Lock()
-	f.id, f.pw, f.right, f.aw = id, pw, left, nil
+	f.id, f.pw, f.right, f.aw, f.upper = id, pw, left, nil, left
 	f.mu.Unlock()
 	if size > 0 {
 		w, err := f.ch.NewRdbWriter(br, left, size)
@@ -228,6 +238,9 @@ func (f *feeder) append(n int64) error {
 	}
 	f.mu.Lock()
 	pw, id, pos := f.pw, f.id, f.right
+	if pw != nil {
+		f.upper = pos + n
+	}
 	f.mu.Unlock()
 	if pw == nil {
 		return fmt.Errorf("%w: append without a log writer", errHarness)
